@@ -448,7 +448,9 @@ Proof.
   destruct (eqb_bytes _ _); [cbn [guarded]; apply IH|].
   destruct (is_store _); [|cbn [guarded]; apply IH].
   destruct (_ <? 5)%nat; [reflexivity|].
-  destruct (atoi _); [|reflexivity].
+  destruct (atoi _) as [v|]; [|reflexivity].
+  destruct (v <? 0); [reflexivity|].
+  destruct (_ && _); [reflexivity|].
   cbn [guarded]. apply IH.
 Qed.
 
@@ -458,7 +460,8 @@ Proof.
   - unfold tftp_script.
     destruct (nth 1 (d_payload d) 0 =? 1)%N; [destruct (2 <=? _)%nat; reflexivity|].
     destruct (nth 1 (d_payload d) 0 =? 2)%N; [destruct (2 <=? _)%nat; reflexivity|].
-    destruct (nth 1 (d_payload d) 0 =? 3)%N; [destruct (has_buf _ _); reflexivity|reflexivity].
+    destruct (nth 1 (d_payload d) 0 =? 3)%N; [|reflexivity].
+    destruct (_ <=? 2)%nat; [reflexivity|]. destruct (has_buf _ _); reflexivity.
   - apply mc_loop_guarded.
   - unfold snmp_script. destruct (_ =? 1)%N; [reflexivity|]. destruct (_ =? 2)%N; [reflexivity|].
     destruct (_ =? 3)%N; [reflexivity|]. destruct (_ =? 4)%N; reflexivity.
@@ -611,7 +614,7 @@ Proof.
   destruct (_ =? 2)%N.
   - destruct (2 <=? _)%nat; auto.
     rewrite !stk_cons_same by exact Hk. rewrite !stk_del, H. reflexivity.
-  - destruct (_ =? 3)%N; auto.
+  - destruct (_ =? 3)%N; auto. destruct (_ <=? 2)%nat; auto.
     rewrite <- (has_buf_stk k st1), <- (has_buf_stk k st2), H by exact Hk.
     destruct (has_buf (stk k st2) _); auto.
     destruct (_ =? 512); auto. rewrite !stk_del, H. reflexivity.
@@ -624,7 +627,7 @@ Proof.
   destruct (_ =? 2)%N.
   - destruct (2 <=? _)%nat; auto.
     rewrite stk_cons_other by exact Hk. apply stk_del_other. exact Hk.
-  - destruct (_ =? 3)%N; auto. destruct (has_buf st _); auto.
+  - destruct (_ =? 3)%N; auto. destruct (_ <=? 2)%nat; auto. destruct (has_buf st _); auto.
     destruct (_ =? 512); auto. apply stk_del_other. exact Hk.
 Qed.
 
@@ -713,9 +716,11 @@ Proof.
   destruct (eqb_bytes _ _); [rewrite H by exact E; reflexivity|].
   destruct (is_store _); [|rewrite H by exact E; reflexivity].
   destruct (_ <? 5)%nat; [reflexivity|].
-  destruct (atoi _); [|reflexivity].
+  destruct (atoi _) as [v|]; [|reflexivity].
+  destruct (v <? 0); [reflexivity|].
+  destruct (_ && _); [reflexivity|].
   rewrite H; [reflexivity|].
-  destruct (0 <? _); rewrite ?skipn_length; lia.
+  rewrite !skipn_length; lia.
 Qed.
 
 Lemma mc_loop_fuel : forall f rem, (length rem < f)%nat -> mc_loop f rem = mc_loop (S f) rem.
@@ -751,6 +756,7 @@ Proof.
   destruct (nth 1 (d_payload d) 0 =? 1)%N; [reflexivity|].
   destruct (nth 1 (d_payload d) 0 =? 2)%N; [reflexivity|].
   destruct (nth 1 (d_payload d) 0 =? 3)%N; [|reflexivity].
+  destruct (_ <=? 2)%nat; [reflexivity|].
   destruct (has_buf st1 _), (has_buf st2 _); reflexivity.
 Qed.
 
